@@ -11,6 +11,7 @@ budget (a loop that never ends hits the budget deterministically); pumping famil
 multiply their steps by 5 when the size doubles."""
 from __future__ import annotations
 
+from vlib.paths import SQLGLOT
 import itertools
 import logging
 import traceback
@@ -46,7 +47,7 @@ BUDGET_FORMULA = "100000 + 2000*n + 20*n^2 steps (n = input length in characters
 def innermost_sqlglot_frame(exc) -> str:
     tb = traceback.extract_tb(exc.__traceback__)
     for fr in reversed(tb):
-        if fr.filename.startswith("/repo/sqlglot"):
+        if fr.filename.startswith(SQLGLOT):
             return f"{fr.filename.rsplit('/', 1)[-1]}:{fr.name}"
     return "?"
 
